@@ -602,7 +602,7 @@ def correspond(ctx, proof_ok=True):
                       {'kind': 'broken-correspondence', 'item': 'oracle: str(np.floatN(float(t))) == t', 'examples': bo[:10]}, False)
     rng = ctx.rng
     hists = []
-    for i in range(ctx.n(200, 3000)):
+    for i in range(ctx.n(180, 3000)):
         doc, ops = gen_history(rng, rng.randint(1, 12))
         hists.append((doc, rng.random() < 0.4, ops))
     for i in range(ctx.n(70, 800)):
@@ -615,19 +615,31 @@ def correspond(ctx, proof_ok=True):
             hists.append((doc, True, ops))
     else:
         for k, (doc, ops) in enumerate(exhaustive_histories(3)):
-            if len(ops) <= 2 or k % 2 == 0:           # all sequences of length <= 2, every other one of length 3
-                hists.append((doc, k % 3 == 0, ops))
-    results, infos, verdicts, terms = evaluate(ctx, hists)
-
+            if len(ops) <= 2 or k % 3 == 0:           # all sequences of length <= 2, every third one of length 3
+                hists.append((doc, k % 2 == 0, ops))
     dist = {}
-    outcomes = {}
     nsteps = 0
     seen = set()
     groups = {}
     outside = []
+    term_hashes = set()
+    sample_term = None
+    CH = 1500        # histories per pass: bounds the memory held (file bytes and dumps after every op)
+    for c0 in range(0, len(hists), CH):
+        part = hists[c0:c0 + CH]
+        results, infos, verdicts, terms = evaluate(ctx, part, tag='cases%d' % (c0 // CH))
+        term_hashes.update(hash(t) for t in terms)
+        if sample_term is None:
+            sample_term = terms[0][:700]
+        analyse(ctx, part, results, infos, verdicts, dist, seen, groups, outside)
+        nsteps += sum(len(r.get('steps', [])) for r in results)
+        del results, infos, verdicts, terms
+    report(ctx, hists, dist, nsteps, groups, outside, term_hashes, sample_term)
+
+
+def analyse(ctx, hists, results, infos, verdicts, dist, seen, groups, outside):
     for (doc, raw, ops), res, bad, v in zip(hists, results, infos, verdicts):
         for op, st in zip(ops, res.get('steps', [])):
-            nsteps += 1
             key = '%s:%s' % (op['tag'], st['outcome'])
             dist[key] = dist.get(key, 0) + 1
         if v in (8, 12) and not bad:
@@ -654,6 +666,9 @@ def correspond(ctx, proof_ok=True):
                           % (step, op['tag'] if op else '?'),
                           {'kind': 'broken-correspondence', 'item': 'C03.Model.step', 'doc': doc, 'raw': raw, 'ops': ops,
                            'step': step, 'verdict': v, 'observed': res['steps'][step - 1] if op else None}, False)
+
+
+def report(ctx, hists, dist, nsteps, groups, outside, term_hashes, sample_term):
     for kind, lst in groups.items():
         lst.sort(key=lambda x: x[0])
         _n, doc, raw, ops, bad, v = lst[0]
@@ -673,7 +688,7 @@ def correspond(ctx, proof_ok=True):
                        'raw': outside[0][1], 'ops': outside[0][2]}, False)
     ctx.coverage.update({
         'evaluations': nsteps,
-        'distinct_nontrivial': len(set(terms)),
+        'distinct_nontrivial': len(term_hashes),
         'rule': 'one evaluation = one operation of a history executed on the real yanny object (after it: outcome class, file name, '
                 'file bytes, object dump, fresh re-read dump), compared in Coq with C03.Model.step and with the specified history '
                 'content, and checked directly (object = re-read = original + appended; earlier bytes preserved; refusals change '
@@ -685,7 +700,7 @@ def correspond(ctx, proof_ok=True):
         'first_history_outside_domain': ({'doc': outside[0][0], 'ops': outside[0][2]} if outside else None),
         'ops_by_kind_and_outcome': dist,
         'histories_failing': sum(len(x) for x in groups.values()),
-        'samples': [{'doc': hists[0][0], 'raw': hists[0][1], 'ops': hists[0][2]}, {'coq_case': terms[0][:700]}],
+        'samples': [{'doc': hists[0][0], 'raw': hists[0][1], 'ops': hists[0][2]}, {'coq_case': sample_term}],
     })
 
 
